@@ -1,7 +1,98 @@
 /-
-  C02 (word level) — the 64-bit division primitives and one-limb division kernels are exact.
+  C02 (word level) — the 64-bit division primitives of gmp-impl.h and the one-limb division kernels
+  return the exact Euclidean quotient/remainder (or the documented exact-division result).
   Property theorems only; helper lemmas live in MpirProofs/Lemmas/DivWord.lean.
+  Every theorem is about the executable models in Mpir/Model/DivWord.lean, which the correspondence
+  check runs against the real macros / mpn_* functions on every run.  B = 2^64; all statements
+  quantify over ALL 64-bit words and ALL lengths.
 -/
-import Mpir.Model.DivWord
+import MpirProofs.Lemmas.DivWord
 namespace Mpir.DivWord
+open Mpir
+
+/-- invert_limb (gmp-impl.h:2822): for every normalised d the macro returns ⌊(B²−1)/d⌋ − B. -/
+theorem invert_limb_spec (d : Nat) (h1 : B / 2 ≤ d) (h2 : d < B) :
+    invert_limb d = (B * B - 1) / d - B :=
+  invert_limb_eq d h1 h2
+
+example : invert_limb (B / 2) = B - 1 := by decide
+example : invert_limb (B - 1) = 1 := by decide
+
+/-- udiv_qrnnd_preinv (= udiv_qrnnd_preinv2, gmp-impl.h:2936, the variant used by mpn_mod_1,
+    mpn_preinv_mod_1, mpn_divrem_euclidean_{qr,r}_1 and the preinv branches of mpn_divrem_1):
+    for every normalised d, nh < d, any nl and di = invert_limb d the result is the exact
+    quotient and remainder of nh·B + nl by d. -/
+theorem udiv_qrnnd_preinv_spec (nh nl d di : Nat) (h1 : B / 2 ≤ d) (h2 : d < B) (hnh : nh < d) (hnl : nl < B)
+    (hdi : di = invert_limb d) :
+    udiv_qrnnd_preinv nh nl d di = ((nh * B + nl) / d, (nh * B + nl) % d) := by
+  subst hdi; exact udiv_qrnnd_preinv2_eq nh nl d h1 h2 hnh hnl
+
+example : udiv_qrnnd_preinv (B / 2) (B - 1) (B / 2 + 1) (invert_limb (B / 2 + 1)) = (B - 1, B / 2) := by decide
+
+/-- modlimb_invert (gmp-impl.h:3087): for every odd n the result is the inverse of n modulo B.
+    The 128 table entries are checked by the kernel; each Newton step doubles the precision. -/
+theorem modlimb_invert_spec (n : Nat) (hodd : n % 2 = 1) : n * modlimb_invert n % B = 1 :=
+  modlimb_invert_mul n hodd
+
+example : modlimb_invert 3 = 0xAAAAAAAAAAAAAAAB := by decide
+
+/-- mpn_divrem_euclidean_qr_1 (assembly in this build, modelled by mpn/generic/divrem_euclidean_qr_1.c):
+    quotient and remainder are exact for every length and every non-zero divisor. -/
+theorem divrem_euclidean_qr_1_val (u : List Nat) (d : Nat) (hu : Limbs u) (hd0 : 0 < d) (hdB : d < B) :
+    val (divrem_euclidean_qr_1 u d).1 * d + (divrem_euclidean_qr_1 u d).2 = val u ∧
+    (divrem_euclidean_qr_1 u d).2 < d ∧ Limbs (divrem_euclidean_qr_1 u d).1 ∧
+    (divrem_euclidean_qr_1 u d).1.length = u.length := by
+  have := divrem_euclidean_qr_1_spec u d hu hd0 hdB
+  simpa [Divrem1Spec] using this
+
+example : divrem_euclidean_qr_1 [5, 7] 3 = ([0x5555555555555557, 2], 0) := by decide
+
+/-
+  Full statement (all paths of mpn_divrem_1):
+    theorem divrem_1_val (qxn) (u) (d) : Limbs u → 0 < d → d < B →
+      val q * d + r = val u * B ^ qxn ∧ r < d ∧ Limbs q ∧ q.length = u.length + qxn   where (q, r) = divrem_1 qxn u d
+  Proved below for every path except the one taken when qxn = 0 ∧ d ≤ 2^62+1 ∧ un ≥ DIVREM_EUCLID_HENSEL_THRESHOLD
+  (divrem_1.c:102-108: remainder by mpn_divrem_euclidean_r_1 → mpn_mod_1_3 folding, quotient by the 2-adic
+  mpn_rsh_divrem_hensel_qr_1_2); that path is modelled limb for limb and tied by correspondence only.
+-/
+/-- mpn_divrem_1 (mpn/generic/divrem_1.c): n·B^qxn = q·d + r, r < d, for all lengths, all fraction-limb
+    counts and every divisor, on the normalised / unnormalised, plain / preinv and
+    mpn_divrem_euclidean_qr_1 paths. -/
+theorem divrem_1_val_partial (qxn : Nat) (u : List Nat) (d : Nat) (hu : Limbs u) (hd0 : 0 < d) (hdB : d < B)
+    (hpath : ¬ (qxn = 0 ∧ d ≤ HIGHBIT / 2 + 1 ∧ ABOVE_THRESHOLD u.length Gen.DIVREM_EUCLID_HENSEL_THRESHOLD = true)) :
+    val (divrem_1 qxn u d).1 * d + (divrem_1 qxn u d).2 = val u * B ^ qxn ∧
+    (divrem_1 qxn u d).2 < d ∧ Limbs (divrem_1 qxn u d).1 ∧ (divrem_1 qxn u d).1.length = u.length + qxn := by
+  have hnh : (decide (qxn = 0) && (decide (d ≤ HIGHBIT / 2 + 1) &&
+      ABOVE_THRESHOLD u.length Gen.DIVREM_EUCLID_HENSEL_THRESHOLD)) = false := by
+    by_contra h
+    simp only [Bool.not_eq_false, Bool.and_eq_true, decide_eq_true_eq] at h
+    exact hpath h
+  exact divrem_1_spec_nohensel qxn u d hu hd0 hdB hnh
+
+example : divrem_1 2 [7] 5 = ([0x6666666666666666, 0x6666666666666666, 1], 2) := by decide
+example : divrem_1 1 [1, B - 1] (B - 1) = ([1, 0, 1], 1) := by decide
+
+/-- mpn_mod_1 (mpn/generic/mod_1.c): the remainder, for all lengths and every non-zero divisor. -/
+theorem mod_1_val (u : List Nat) (d : Nat) (hu : Limbs u) (hd0 : 0 < d) (hdB : d < B) :
+    mod_1 u d = val u % d :=
+  mod_1_eq u d hu hd0 hdB
+
+example : mod_1 [5, 7, 11] 13 = 8 := by decide
+
+/-- mpn_preinv_mod_1 (mpn/generic/preinv_mod_1.c): normalised d, dinv = invert_limb d. -/
+theorem preinv_mod_1_val (u : List Nat) (d dinv : Nat) (hu : Limbs u) (h1 : B / 2 ≤ d) (h2 : d < B)
+    (hdinv : dinv = invert_limb d) : preinv_mod_1 u d dinv = val u % d := by
+  subst hdinv; exact preinv_mod_1_eq u d hu h1 h2
+
+example : preinv_mod_1 [5, 7] (B - 1) (invert_limb (B - 1)) = 12 := by decide
+
+/-- mpn_divexact_1 (mpn/generic/divexact_1.c): when d divides the dividend the result is the quotient. -/
+theorem divexact_1_val (n : List Nat) (d : Nat) (hn : Limbs n) (hne : n ≠ []) (hd0 : 0 < d) (hdB : d < B)
+    (hdvd : d ∣ val n) :
+    val (divexact_1 n d) * d = val n ∧ Limbs (divexact_1 n d) ∧ (divexact_1 n d).length = n.length :=
+  divexact_1_spec n d hn hne hd0 hdB hdvd
+
+example : divexact_1 [B - 12, 11] 12 = [B - 1, 0] := by decide
+example : divexact_1 [B - 7, 6] 7 = [B - 1, 0] := by decide
+
 end Mpir.DivWord
